@@ -103,6 +103,7 @@ fn std_small(path: &str) -> bool {
         || path == "std::mem::swap"
         || path == "std::mem::replace"
         || path == "std::mem::take"
+        || path == "<T as std::convert::Into<U>>::into"
 }
 
 fn span_loc(tcx: TyCtxt<'_>, sp: Span) -> (String, usize) {
